@@ -76,6 +76,9 @@ func (f Float32) ToString() String {
 func (f Float32) Hash() UInt64 {
 	d := xxhash.New()
 	b := make([]byte, 4)
+	if f == 0 {
+		f = 0 // canonicalise -0.0 to +0.0, since 0.0 == -0.0
+	}
 	binary.LittleEndian.PutUint32(b, math.Float32bits(float32(f)))
 	d.Write(b)
 	return UInt64(d.Sum64())
